@@ -27,7 +27,7 @@ class CdcHarness(Harness):
         pf = LiteDRAMNativePort("both", aw, dw, clock_domain="user"); pt = LiteDRAMNativePort("both", aw, dw)
         dut = LiteDRAMNativePortCDC(pf, pt, cmd_depth=depth, wdata_depth=depth, rdata_depth=depth)
         # stream table: (name, producer endpoint, consumer endpoint, producer domain, consumer domain, payload fields)
-        table = {"cmd": (pf.cmd, pt.cmd, "user", "sys", ("addr", "we")), "wdata": (pf.wdata, pt.wdata, "user", "sys", ("data", "we")), "rdata": (pt.rdata, pf.rdata, "sys", "user", ("data",))}
+        table = {"cmd": (pf.cmd, pt.cmd, "user", "sys", ("addr", "we", "last")), "wdata": (pf.wdata, pt.wdata, "user", "sys", ("data", "we")), "rdata": (pt.rdata, pf.rdata, "sys", "user", ("data",))}
         self.streams = [(n,) + table[n] for n in streams]
         reads = []
         for n, pe, ce, pd, cd, fields in self.streams:
@@ -36,7 +36,7 @@ class CdcHarness(Harness):
         ii = c.ii
         self.io = []
         for n, pe, ce, pd, cd, fields in self.streams:
-            self.io.append(dict(i_valid=ii[pe.valid], i_fields=[(ii[getattr(pe, f)], len(getattr(pe, f))) for f in fields], i_ready=ii[ce.ready],
+            self.io.append(dict(i_valid=ii[pe.valid], i_fields=[(ii.get(getattr(pe, f)), len(getattr(pe, f))) for f in fields], i_ready=ii[ce.ready],
                                 r_pready=c.rd(pe.ready), r_cvalid=c.rd(ce.valid), r_fields=[(c.rd(getattr(ce, f)), len(getattr(ce, f))) for f in fields], pd=pd, cd=cd))
         self.base = list(c.base_inputs)
         self.cov = {}
@@ -46,7 +46,7 @@ class CdcHarness(Harness):
         # exercised independently here, and a read command without its read data coming back is not a behaviour of the core (the port
         # bounds the reads in flight, so reads that never complete would - rightly - stop the command stream); reads are covered end to
         # end by ReadFlowHarness and GetPortHarness
-        if nbits == 1: return 1
+        if nbits == 1: return 1 if k == 1 else (seq ^ (seq >> 1)) & 1      # field 1 of cmd/wdata is `we`; cmd.last (end-of-burst hint used by converters) varies
         v = (seq * (k * 2 + 1) + k * 5) & 0xffff
         return v & ((1 << nbits) - 1)
 
@@ -76,7 +76,8 @@ class CdcHarness(Harness):
         for (seq, hold, exp), io, (v, r) in zip(E, self.io, combo):
             if v:
                 I[io["i_valid"]] = 1
-                for k, (idx, nb) in enumerate(io["i_fields"]): I[idx] = self.payload(seq, k, nb)
+                for k, (idx, nb) in enumerate(io["i_fields"]):
+                    if idx is not None: I[idx] = self.payload(seq, k, nb)      # a field the netlist does not even read cannot arrive: the scoreboard reports it
             I[io["i_ready"]] = r
         return tuple(I), tick
 
